@@ -25,6 +25,7 @@ func checkC16(c *chk.Ctx) {
 		"R16b a first delta of zero is rejected before a key is built",
 		"R16c subscribers are only notified with a key whose generation succeeded (and, open finding F8b, should only be notified once the batch is committed)",
 		"R16d a subscriber is registered before the current last key is read (no lost wake-up)",
+		"R16f every upper bound of a sequence lookup (key generation and subscriber's initial read) is built from the maximum of the suffix type (MaxUint64): no generated key can lie above the bound",
 	}
 	c.NotDec = []string{
 		"the suffix arithmetic (overflow of last+delta, %020d width) and 'strictly greater than every existing key' under the slash order",
@@ -34,6 +35,7 @@ func checkC16(c *chk.Ctx) {
 	ruleR16b(h)
 	ruleR16c(h)
 	ruleR16d(h)
+	ruleR16f(h)
 }
 
 func sequenceLookupFns(h *H) []*ssa.Function {
@@ -302,4 +304,97 @@ func ruleR16d(h *H) {
 		})
 		h.Verdict(ok && n > 0, rule, "waiter registered before the read in "+ir.FuncName(fn), h.pos(adds[0]), "AddSequenceWaiter dominates the KV read", "the current last key is read before the waiter is registered: a key generated in between is neither in the read nor delivered as an update (lost wake-up)")
 	}
+}
+
+// ruleR16f: the key generation looks the highest existing key up strictly below
+// "<prefix>-<bound>", the subscriber's initial read scans up to such a bound. Suffixes are
+// uint64 values, so the bound must be the maximum uint64: with any smaller constant, a
+// sequence that passed it is no longer seen (keys are regenerated from a lower one and
+// overwrite records; a new subscriber does not observe the latest key).
+func ruleR16f(h *H) {
+	const rule = "R16f"
+	h.Rule(rule, "K7", "the numeric part of every sequence-lookup upper bound (WriteBatch.FindLower argument in the generation, upper bound of the reverse scan in GetSequenceUpdates) is the constant MaxUint64", 2)
+	type site struct {
+		name string
+		in   ssa.Instruction
+		v    ssa.Value
+	}
+	var sites []site
+	for _, fn := range sequenceLookupFns(h) {
+		for i, c := range h.P.CallsIn(fn, batchFindLower) {
+			sites = append(sites, site{fmt.Sprintf("generation lookup bound #%d in %s", i+1, ir.FuncName(fn)), c, argOf(c.Common(), 0)})
+		}
+	}
+	for _, fn := range h.P.ImplMethods("server/kv", "DB", "GetSequenceUpdates") {
+		n := 0
+		ir.Instrs(fn, func(in ssa.Instruction) {
+			c := ir.CallOf(in)
+			if c == nil || !c.IsInvoke() || !ir.TypeIs(c.Value.Type(), "server/kv", "KV") || len(c.Args) != 2 {
+				return
+			}
+			n++
+			sites = append(sites, site{fmt.Sprintf("subscriber initial read bound #%d in %s", n, ir.FuncName(fn)), in, c.Args[1]})
+		})
+	}
+	if len(sites) < 2 {
+		h.Anchor(rule, "the sequence lookup bounds (FindLower argument, GetSequenceUpdates scan)")
+		return
+	}
+	for _, s := range sites {
+		v := throughHelperResult(s.v)
+		parts, ok := ir.SymString(v)
+		if !ok || len(parts) == 0 {
+			h.Unknown(rule, s.name, h.pos(s.in), "cannot evaluate the bound symbolically")
+			continue
+		}
+		last := parts[len(parts)-1]
+		if last.Val == nil {
+			h.Unknown(rule, s.name, h.pos(s.in), fmt.Sprintf("the bound ends in the literal %q: cannot relate it to the suffix range", last.Lit))
+			continue
+		}
+		lv := last.Val
+		for {
+			if mi, isMI := lv.(*ssa.MakeInterface); isMI {
+				lv = mi.X
+				continue
+			}
+			break
+		}
+		k, isK := stripConv(ir.Canon(lv)).(*ssa.Const)
+		if !isK || k.Value == nil {
+			h.Unknown(rule, s.name, h.pos(s.in), "the numeric part of the bound is not a constant: "+ir.Describe(lv))
+			continue
+		}
+		h.Verdict(k.Uint64() == ^uint64(0) && k.Value.ExactString() == "18446744073709551615", rule, s.name, h.pos(s.in), "bound = MaxUint64, the maximum suffix",
+			"the bound's numeric part is "+k.Value.ExactString()+", below the largest suffix a sequence can reach (uint64): once a sequence passes it the lookup no longer sees the highest existing key")
+	}
+}
+
+// throughHelperResult follows a value that is the (i-th) result of a repository helper
+// with a single return statement to the returned expression.
+func throughHelperResult(v ssa.Value) ssa.Value {
+	idx := 0
+	c := ir.Canon(v)
+	if ex, ok := c.(*ssa.Extract); ok {
+		idx = ex.Index
+		c = ex.Tuple
+	}
+	call, ok := c.(*ssa.Call)
+	if !ok {
+		return v
+	}
+	f := call.Call.StaticCallee()
+	if f == nil || f.Blocks == nil || !ir.InRepo(f) {
+		return v
+	}
+	var rets []*ssa.Return
+	ir.Instrs(f, func(in ssa.Instruction) {
+		if r, ok := in.(*ssa.Return); ok {
+			rets = append(rets, r)
+		}
+	})
+	if len(rets) != 1 || idx >= len(rets[0].Results) {
+		return v
+	}
+	return rets[0].Results[idx]
 }
